@@ -101,7 +101,11 @@ Record locked := mkLk {
   l_bonus : Z;      (* BonusToBeGiven *)
   l_init : Z;       (* InitiatorType: 0 vault, 1 lend, 2 external *)
   l_intk : bool;    (* IsInternalKeeper *)
-  l_cmst : bool     (* IsDebtCmst *)
+  l_cmst : bool;    (* IsDebtCmst *)
+  l_stuck : bool    (* lend-initiated only: the borrow carries a bridged (cross-pool) amount AND its lend position
+                       was deleted when the borrow was seized (UpdateLockedBorrows deletes a lend position that
+                       is used up).  MsgCloseDutchAuctionForBorrow then looks the deleted position up for the
+                       pool to return the bridged amount to and sends it to the module account "" : bank panic *)
 }.
 
 Record auction := mkAu {
@@ -281,9 +285,16 @@ Definition settle (cf : acfg) (lk : locked) (L : ledger) (xf nf : Z) : outcome (
     do L2 <- (if pen >? 0 then oerr 11 (send L1 AUC_D COL_D pen) else Ok L1);
     if pen <? 0 then Err 12 else Ok (L2, xf, nf + pen)   (* SetNetFeeCollectedData(app, debt asset, penalty sent) *)
   else
-    (* lend: MsgCloseDutchAuctionForBorrow sends TargetDebt to the pool module *)
+    (* lend: MsgCloseDutchAuctionForBorrow sends TargetDebt to the pool module; the rest of it moves coins
+       between the pool and the reserve module account only (observed together as POOL_D), except that the
+       return of a bridged amount panics when the lend position is gone (known finding C10-F7) *)
     do L1 <- oerr 13 (send L AUC_D POOL_D (l_target lk));
-    Ok (L1, xf, nf).
+    if l_stuck lk then Panic else Ok (L1, xf, nf).
+
+(* known-finding class C10-F7: a lend-initiated auction of a cross-pool borrow whose lend position was
+   used up can never be closed *)
+Definition kf_C10_7 (lk : locked) : bool :=
+  negb (l_init lk =? 0) && negb (l_init lk =? 2) && l_stuck lk.
 
 (* the bidder's payment: a market bid moves the coins now; an automatic bid (isAutoBid) moves nothing -
    the limit bid's deposit has been in the auction account since MsgDepositLimitBid *)
